@@ -27,6 +27,11 @@ pub struct Cfg {
     /// batch count of the entry (None = the builder's default of 1); the contract does not depend on it
     #[serde(default)]
     pub batch: Option<u32>,
+    /// the chain is driven directly (SlotChain::entry) and entered a SECOND time with the same
+    /// context; in the second attempt no check slot blocks: the outcome must follow the checks of
+    /// that attempt
+    #[serde(default)]
+    pub reenter: bool,
 }
 
 type Log = Arc<Mutex<Vec<String>>>;
@@ -42,6 +47,8 @@ impl StatPrepareSlot for Prep {
         self.2.lock().unwrap().push(format!("prep:{}", self.0));
     }
 }
+/// 0 during the first attempt; from the second attempt on every check slot passes
+static ATTEMPT: std::sync::atomic::AtomicUsize = std::sync::atomic::AtomicUsize::new(0);
 struct Check(usize, u32, Res, Log);
 impl BaseSlot for Check {
     fn order(&self) -> u32 {
@@ -51,6 +58,9 @@ impl BaseSlot for Check {
 impl RuleCheckSlot for Check {
     fn check(&self, _ctx: &mut EntryContext) -> TokenResult {
         self.3.lock().unwrap().push(format!("check:{}", self.0));
+        if ATTEMPT.load(std::sync::atomic::Ordering::SeqCst) > 0 {
+            return TokenResult::new_pass();
+        }
         match self.2 {
             Res::Pass => TokenResult::new_pass(),
             Res::Wait => TokenResult::new_should_wait(1),
@@ -77,7 +87,61 @@ impl StatSlot for Stat {
     }
 }
 
+/// the re-entered variant: see `Cfg::reenter`
+fn run_reentered(c: &Cfg) -> Result<(usize, String), String> {
+    use sentinel_core::base::{ResourceType, ResourceWrapper, SentinelEntry, TrafficType};
+    ATTEMPT.store(0, std::sync::atomic::Ordering::SeqCst);
+    let log: Log = Arc::new(Mutex::new(vec![]));
+    let mut sc = SlotChain::new();
+    let n = c.preps.len().max(c.checks.len()).max(c.stats.len());
+    for i in 0..n {
+        if i < c.stats.len() {
+            sc.add_stat_slot(Arc::new(Stat(i, c.stats[i], log.clone())));
+        }
+        if i < c.checks.len() {
+            sc.add_rule_check_slot(Arc::new(Check(i, c.checks[i].0, c.checks[i].1, log.clone())));
+        }
+        if i < c.preps.len() {
+            sc.add_stat_prepare_slot(Arc::new(Prep(i, c.preps[i], log.clone())));
+        }
+    }
+    let sc = Arc::new(sc);
+    let mut ctx = EntryContext::new();
+    ctx.set_resource(ResourceWrapper::new("c13-res".into(), ResourceType::Common, TrafficType::Outbound));
+    let ctx = Arc::new(std::sync::RwLock::new(ctx));
+    let entry = Arc::new(std::sync::RwLock::new(SentinelEntry::new(ctx.clone(), sc.clone())));
+    ctx.write().unwrap().set_entry(Arc::downgrade(&entry));
+    let blockers = c.checks.iter().filter(|x| matches!(x.1, Res::BlockFlow | Res::BlockOther)).count();
+    let r0 = sc.entry(ctx.clone());
+    if r0.is_blocked() != (blockers > 0) {
+        ATTEMPT.store(0, std::sync::atomic::Ordering::SeqCst);
+        return Err(format!("first-attempt: {} check slots blocked, result {}", blockers, r0));
+    }
+    entry.read().unwrap().exit();
+    let first = std::mem::take(&mut *log.lock().unwrap());
+    // second attempt on the same context: nobody blocks
+    ATTEMPT.store(1, std::sync::atomic::Ordering::SeqCst);
+    let r1 = sc.entry(ctx.clone());
+    entry.read().unwrap().exit();
+    ATTEMPT.store(0, std::sync::atomic::Ordering::SeqCst);
+    let second = std::mem::take(&mut *log.lock().unwrap());
+    if r1.is_blocked() {
+        return Err(format!("reentered-blocked: second attempt on the same context: no check slot blocked, yet the result is {}; calls {:?}", r1, second));
+    }
+    let (np, nc, ns) = (c.preps.len(), c.checks.len(), c.stats.len());
+    let passes = second.iter().filter(|e| e.starts_with("pass:")).count();
+    let completed = second.iter().filter(|e| e.starts_with("completed:")).count();
+    let blocked = second.iter().filter(|e| e.starts_with("blocked:")).count();
+    if second.len() != np + nc + 2 * ns || passes != ns || completed != ns || blocked != 0 {
+        return Err(format!("reentered-notifications: second attempt (nobody blocks) on the same context produced {:?} for {} prepare, {} check and {} statistic slots", second, np, nc, ns));
+    }
+    Ok((first.len() + second.len(), "reentered".into()))
+}
+
 pub fn run_one(c: &Cfg) -> Result<(usize, String), String> {
+    if c.reenter {
+        return run_reentered(c);
+    }
     let log: Log = Arc::new(Mutex::new(vec![]));
     let mut sc = SlotChain::new();
     // add in an interleaved order: kinds must not disturb each other
@@ -216,20 +280,20 @@ pub fn configs(thorough: bool) -> Vec<Cfg> {
     let mut v = vec![];
     // each kind varied fully against a fixed shape of the others
     for checks in seqs(&check_alpha, k) {
-        v.push(Cfg { preps: vec![2], checks, stats: vec![2, 1], traced_error: false, batch: None });
+        v.push(Cfg { preps: vec![2], checks, stats: vec![2, 1], traced_error: false, batch: None, reenter: false });
     }
     for preps in seqs(&orders, 4) {
-        v.push(Cfg { preps, checks: vec![(2, Res::Pass), (1, Res::BlockFlow)], stats: vec![1, 1], traced_error: false, batch: None });
+        v.push(Cfg { preps, checks: vec![(2, Res::Pass), (1, Res::BlockFlow)], stats: vec![1, 1], traced_error: false, batch: None, reenter: false });
     }
     for stats in seqs(&orders, 4) {
-        v.push(Cfg { preps: vec![1], checks: vec![(2, Res::BlockOther), (1, Res::Pass)], stats: stats.clone(), traced_error: false, batch: None });
-        v.push(Cfg { preps: vec![1], checks: vec![(2, Res::Wait), (1, Res::Pass)], stats, traced_error: false, batch: None });
+        v.push(Cfg { preps: vec![1], checks: vec![(2, Res::BlockOther), (1, Res::Pass)], stats: stats.clone(), traced_error: false, batch: None, reenter: false });
+        v.push(Cfg { preps: vec![1], checks: vec![(2, Res::Wait), (1, Res::Pass)], stats, traced_error: false, batch: None, reenter: false });
     }
     // jointly for up to 2 slots per kind
     for preps in seqs(&orders, 2) {
         for checks in seqs(&check_alpha, 2) {
             for stats in seqs(&orders, 2) {
-                v.push(Cfg { preps: preps.clone(), checks: checks.clone(), stats, traced_error: false, batch: None });
+                v.push(Cfg { preps: preps.clone(), checks: checks.clone(), stats, traced_error: false, batch: None, reenter: false });
             }
         }
     }
@@ -239,6 +303,13 @@ pub fn configs(thorough: bool) -> Vec<Cfg> {
     // the jointly varied chains again with batch counts 0 and 3
     let batched: Vec<Cfg> = v.iter().filter(|c| !c.traced_error && c.preps.len() <= 2 && c.checks.len() <= 2 && c.stats.len() <= 2).flat_map(|c| [0u32, 3].into_iter().map(move |n| Cfg { batch: Some(n), ..c.clone() })).collect();
     v.extend(batched);
+    // the jointly varied chains with at least one blocking check, entered twice with one context
+    let again: Vec<Cfg> = v
+        .iter()
+        .filter(|c| !c.traced_error && c.batch.is_none() && c.preps.len() <= 2 && c.checks.len() <= 2 && c.stats.len() <= 2 && c.checks.iter().any(|x| matches!(x.1, Res::BlockFlow | Res::BlockOther)))
+        .map(|c| Cfg { reenter: true, ..c.clone() })
+        .collect();
+    v.extend(again);
     v
 }
 
